@@ -35,3 +35,17 @@ func refLev(s, t string) int {
 	}
 	return d[len(a)][len(b)]
 }
+
+// refSameRunes reports whether s and t are the same sequence of characters.
+func refSameRunes(s, t string) bool {
+	a, b := []rune(s), []rune(t)
+	if len(a) != len(b) {
+		return false
+	}
+	for i := range a {
+		if a[i] != b[i] {
+			return false
+		}
+	}
+	return true
+}
